@@ -362,10 +362,11 @@ func C12(r *core.Run) {
 			os.RemoveAll(filepath.Join(wd, "regex-assembly"))
 			t := core.Tree{"regex-assembly/toolchain.yaml": c01Yaml, "regex-assembly/include/": "", "regex-assembly/exclude/": ""}
 			var where []string
+			ptexts := append(append([]string{}, texts[:3]...), "##!> cmdline unix\nls@\nrm -f\n##!<\n")
 			for i, a := range ids {
 				pl := places[(mask>>(2*i))&3]
 				where = append(where, pl+"/"+a)
-				t[filepath.Join("regex-assembly", pl, a+".ra")] = texts[i]
+				t[filepath.Join("regex-assembly", pl, a+".ra")] = ptexts[i]
 			}
 			t.Materialise(wd)
 			file := rulesFile(ruleSpec{ID: "123456", Regex: "STALE0", Chain: []string{"STALE1", "STALE2"}}, ruleSpec{ID: "123457", Regex: "STALE3"})
@@ -381,6 +382,13 @@ func C12(r *core.Run) {
 			}
 			if up.Kind != inproc.OK {
 				continue // a layout the tool refuses is outside the round trip
+			}
+			// what update stored is what generate prints for the file, wherever the file stands (the cmdline block
+			// makes the configuration visible in the operand)
+			if strings.Contains(string(got), "STALE3") == false {
+				if g := root.Generate(ptexts[3]); g.Kind == inproc.OK && !strings.Contains(string(got), `"@rx `+g.Out+`"`) {
+					fail("stored-equals-generated", "the operand stored by update --all for "+where[3]+" is not what generate prints for that file: "+tailStr(g.Out, 120))
+				}
 			}
 			if c := root.CompareAll(true); c.Kind != inproc.OK || strings.Contains(c.Stdout, "has changed") {
 				fail("update-then-compare-unchanged", "compare --all (github) right after a successful update --all reports a changed rule: "+tailStr(c.Stdout, 200))
